@@ -96,8 +96,8 @@ fn diff(a: &Snapshot, b: &Snapshot) -> Vec<String> {
     d
 }
 
-const DEST_STATES: [&str; 11] = [
-    "file:absent", "file:existing-shorter", "file:existing-longer", "file:missing-parent", "file:parent-is-a-file", "file:/dev/full", "dir:generated-is-a-directory", "dir:empty", "dir:existing-longer-generated", "stdout",
+const DEST_STATES: [&str; 12] = [
+    "file:absent", "file:existing-shorter", "file:existing-longer", "file:missing-parent", "file:parent-is-a-file", "file:/dev/full", "dir:generated-is-a-directory", "dir:empty", "dir:existing-longer-generated", "stdout", "stdout:/dev/full",
     "none",
 ];
 
@@ -150,7 +150,7 @@ fn run_case(work: &Path, n: u64, backend: &str, state: &str, sources: &[(String,
             std::fs::write(out.join("d").join(format!("generated.{ext}")), &long).ok()?;
             ("file", out.join("d"), Some(out.join("d").join(format!("generated.{ext}"))))
         }
-        "stdout" => ("stdout", PathBuf::new(), None),
+        "stdout" | "stdout:/dev/full" => ("stdout", PathBuf::new(), None),
         _ => ("none", PathBuf::new(), None),
     };
     // sources: literal or file
@@ -167,7 +167,9 @@ fn run_case(work: &Path, n: u64, backend: &str, state: &str, sources: &[(String,
     let spec_path = dir.join("spec.json");
     std::fs::write(&spec_path, serde_json::to_string(&json!({"backend": backend, "mode": mode, "dest": dest.to_string_lossy(), "sources": specs})).unwrap()).ok()?;
     let before = snapshot(&out);
-    let child = Command::new(exe).args(["C20-child", spec_path.to_str().unwrap()]).current_dir(&dir).env_remove("CARGO").env_remove("CARGO_HOME").stdin(Stdio::null()).stdout(Stdio::piped()).stderr(Stdio::null()).output().ok()?;
+    // the child's standard output is a pipe we read, or the full device (every write to it fails with ENOSPC)
+    let child_stdout = if state == "stdout:/dev/full" { Stdio::from(std::fs::OpenOptions::new().write(true).open("/dev/full").ok()?) } else { Stdio::piped() };
+    let child = Command::new(exe).args(["C20-child", spec_path.to_str().unwrap()]).current_dir(&dir).env_remove("CARGO").env_remove("CARGO_HOME").stdin(Stdio::null()).stdout(child_stdout).stderr(Stdio::null()).output().ok()?;
     let after = snapshot(&out);
     let verdict: Value = std::fs::read_to_string(format!("{}.out", spec_path.to_string_lossy())).ok().and_then(|s| serde_json::from_str(&s).ok()).unwrap_or(json!({"reference": {"status": "ChildDied"}, "result": {"status": "ChildDied"}}));
     let delivered = expect_at.as_ref().and_then(|p| std::fs::read(p).ok());
@@ -224,7 +226,7 @@ fn judge(state: &str, o: &CaseOut) -> Vec<(String, String)> {
         } else {
             // unwritable destination: must be reported as Err
             // an empty text writes no byte, so /dev/full has nothing to refuse
-            if cs != "Err" && !(state == "file:/dev/full" && text.is_empty()) {
+            if cs != "Err" && !(state.ends_with("/dev/full") && text.is_empty()) {
                 v.push(("unwritable-destination-not-reported".into(), format!("destination `{state}` cannot be written but compile() returned {cs}")));
             }
         }
@@ -277,7 +279,10 @@ pub fn cli_binary(rep: &mut Report) -> Option<PathBuf> {
 fn cli_case(work: &Path, n: u64, cli: &Path, exe: &Path, backend: &str, how: u8, texts: &[String], rng: &mut Rng, rep: &mut Report) {
     let dir = work.join(format!("cli{n}"));
     let _ = std::fs::remove_dir_all(&dir);
-    let tree = dir.join("tree");
+    // how the directory is named on the command line (only with -d): 0 absolute path, 1 `.` from inside the tree,
+    // 2 a directory whose own name starts with a dot, 3 one module below a dot-directory inside the tree
+    let dir_style = if how % 2 == 0 && (how / 2) % 4 != 3 { (how / 8) % 4 } else { 0 };
+    let tree = dir.join(if dir_style == 2 { ".tree" } else { "tree" });
     let out = dir.join("out");
     if std::fs::create_dir_all(tree.join("sub/deeper")).is_err() || std::fs::create_dir_all(&out).is_err() {
         return;
@@ -286,7 +291,8 @@ fn cli_case(work: &Path, n: u64, cli: &Path, exe: &Path, backend: &str, how: u8,
     // modules spread over the tree with both extensions; decoys that must not be picked up
     let mut files = vec![];
     for (i, t) in texts.iter().enumerate() {
-        let sub = ["", "sub", "sub/deeper"][rng.below(3)];
+        let sub = if dir_style == 3 && i == 0 { "sub/.vendored" } else { ["", "sub", "sub/deeper"][rng.below(3)] };
+        let _ = std::fs::create_dir_all(tree.join(sub));
         let e = if rng.chance(1, 2) { "asn" } else { "asn1" };
         let p = tree.join(sub).join(format!("m{i}.{e}"));
         let _ = std::fs::write(&p, t);
@@ -305,11 +311,15 @@ fn cli_case(work: &Path, n: u64, cli: &Path, exe: &Path, backend: &str, how: u8,
     let lib_text = verdict["reference"]["generated"].as_str().unwrap_or("").to_string();
     // CLI invocation
     let mut cmd = Command::new(cli);
-    cmd.current_dir(&out).env_remove("CARGO").env_remove("CARGO_HOME").stdin(Stdio::null()).stdout(Stdio::piped()).stderr(Stdio::piped());
+    cmd.current_dir(if dir_style == 1 { &tree } else { &out }).env_remove("CARGO").env_remove("CARGO_HOME").stdin(Stdio::null()).stdout(Stdio::piped()).stderr(Stdio::piped());
     cmd.args(["--backend", if backend == "ts" { "typescript" } else { "rasn" }]);
     let by_dir = how % 2 == 0;
     if by_dir {
-        cmd.arg("-d").arg(&tree);
+        if dir_style == 1 {
+            cmd.arg("-d").arg(".");
+        } else {
+            cmd.arg("-d").arg(&tree);
+        }
     } else {
         for f in &files {
             cmd.arg("-m").arg(f);
@@ -331,6 +341,16 @@ fn cli_case(work: &Path, n: u64, cli: &Path, exe: &Path, backend: &str, how: u8,
         }
         _ => Some(out.join(format!("generated.{ext}"))),
     };
+    // `--stdout > /dev/full`: the CLI must fail (the library reports the failed write as Err)
+    let full_stdout = out_kind == 1 && (how / 32) % 2 == 1 && !lib_text.is_empty();
+    if full_stdout {
+        match std::fs::OpenOptions::new().write(true).open("/dev/full") {
+            Ok(f) => {
+                cmd.stdout(Stdio::from(f));
+            }
+            Err(_) => return,
+        }
+    }
     let before = snapshot(&out);
     let Ok(o) = cmd.output() else {
         rep.inconclusive.push("cannot spawn CLI".into());
@@ -340,13 +360,23 @@ fn cli_case(work: &Path, n: u64, cli: &Path, exe: &Path, backend: &str, how: u8,
     rep.evaluations += 1;
     rep.count("cli_invocations", 1);
     rep.count(&format!("cli_invocations[{}/{}]", if by_dir { "directory" } else { "module-files" }, ["output-path", "stdout", "no-output", "default-path"][out_kind as usize]), 1);
+    if by_dir {
+        rep.count(&format!("cli_invocations[-d {}]", ["ABSOLUTE", ".", ".DOTNAME", "tree with a dot-directory inside"][dir_style as usize]), 1);
+    }
+    if full_stdout {
+        rep.count("cli_invocations[--stdout on /dev/full]", 1);
+    }
     rep.nontrivial.insert(hash_str(&format!("cli|{n}|{how}|{backend}|{}", texts.join("|"))));
     let mut found: Vec<(String, String)> = vec![];
     let cli_ok = o.status.success();
     if o.status.code().is_none() {
         found.push(("cli-killed-by-signal".into(), format!("{:?}", o.status)));
     }
-    if cli_ok != (lib_status == "Ok") {
+    if full_stdout {
+        if lib_status == "Ok" && cli_ok {
+            found.push(("cli-unwritable-stdout-not-reported".into(), format!("--stdout on /dev/full: exit status 0 although none of the {} bytes can have been delivered", lib_text.len())));
+        }
+    } else if cli_ok != (lib_status == "Ok") {
         found.push(("exit-status-vs-library".into(), format!("CLI exit success={cli_ok}, library result {lib_status}; stderr: {}", one_line(&String::from_utf8_lossy(&o.stderr), 200))));
     } else if cli_ok {
         match out_kind {
@@ -412,7 +442,7 @@ pub fn run(ctx: &Ctx) -> Report {
         "fault_enumeration",
         "library: grammar-G module sets (valid, and every third one malformed) x both backends x sources as literals / file paths / mixed x destination state {file absent, existing shorter file, existing longer file, missing parent directory, parent is a regular file, /dev/full, directory whose generated.<ext> is itself a directory, empty directory, directory with a longer generated.<ext>, stdout, no output} — each case runs compile() in a child process (same environment as the compile_to_string() reference taken in that very process, rustfmt unavailable) with file-system snapshots of the destination tree before and after and captured stdout. CLI: the real rasn_compiler_cli built from /repo with feature cli, on directory trees (nested, .asn and .asn1, decoy files) or -m lists x {-o PATH, --stdout, --no-output, default path} x both backends, compared with the library on the same file set. Non-trivial = child finished and all observations judged; distinct by (input, backend, destination state).",
     );
-    rep.must_observe = vec!["library_cases".into(), "cli_invocations".into(), "library_cases[failed-compilation]".into(), "library_cases[unwritable-destination]".into()];
+    rep.must_observe = vec!["library_cases".into(), "cli_invocations".into(), "cli_invocations[-d .]".into(), "cli_invocations[-d .DOTNAME]".into(), "cli_invocations[--stdout on /dev/full]".into(), "library_cases[stdout:/dev/full]".into(), "library_cases[failed-compilation]".into(), "library_cases[unwritable-destination]".into()];
     rep.assumptions = vec!["we run as root: unwritable destinations are produced by ENOTDIR / ENOSPC (/dev/full) / EISDIR, not by mode bits".into(), "the asn1! macro comparison (nightly -Zunpretty=expanded) is not part of this revision".into()];
     let exe = std::env::current_exe().expect("current_exe");
     let work = std::env::temp_dir().join(format!("vcheck-c20-{}", std::process::id()));
@@ -468,7 +498,7 @@ pub fn run(ctx: &Ctx) -> Report {
             let mut rng = Rng::for_case(seed, 2020, i);
             let (texts, _) = inputs(seed, 10_000 + i);
             let backend = if i % 4 == 3 { "ts" } else { "rasn" };
-            cli_case(&work, i, &cli, &exe, backend, (i % 8) as u8, &texts, &mut rng, &mut local);
+            cli_case(&work, i, &cli, &exe, backend, (i % 64) as u8, &texts, &mut rng, &mut local);
             acc.with(|r| r.merge(local));
         });
     }
